@@ -20,6 +20,7 @@ RULE = ("cases = generated plotfiles x (every C04 single site + every site of th
 ASSUMPTIONS = ["FAB located by scanning the named file for the box descriptor text; not unique "
                "=> inconclusive", "pool shim M1 in-process"]
 REQUIRED_OBS = {"accepted_and_read": 300, "rejected": 500, "set:tolerant_ops_accepted": 4}
+CHAIN = {"quick": 2, "thorough": 10}
 TIMEOUT = {"quick": 400, "thorough": 2400}
 
 
